@@ -16,6 +16,9 @@ func init() {
 func c04(r *Report, s *Sem) {
 	p := r.P
 	a := s.anchors()
+	R11 := r.Rule("R11", "one consumer per channel: the goroutine that runs the client's dispatch loop is spawned by a single function with a single call site, in the constructor that allocates the Client (the server side has one serving goroutine per accepted transport, C14.R5) — two dispatchers on one channel take alternate envelopes and break the order", 1)
+	defer checkSingleDispatcher(r, s, R11)
+	defer r.Import(s, "C15", "K", "R10", "TCP keeps delivering after a quiet period: the polling wrappers re-arm, on every retry, a deadline computed from a fresh time.Now() and re-check the context (a deadline computed once per call has expired after the first poll interval: the receiver spins, nothing is delivered any more while both ends stay established)", 2, "(K2)")
 	R1 := r.Rule("R1", "every Transport.Send call made on behalf of a channel is inside one critical section of the channel's send mutex (whole-envelope writes are serialised)", 2)
 	R2 := r.Rule("R2", "at most one concurrent reader per connection: Transport.Receive is called only by the receiver goroutine (spawned once, through sync.Once) and by the handshake read, whose call is dominated by state ∉ {established, finished}", 3)
 	R3 := r.Rule("R3", "in the receiver, every envelope kind is forwarded by exactly one blocking select that sends the very value received (no dropping default arm); a response command goes to the stream only on the miss edge of the pending-table hand-off", 5)
@@ -311,6 +314,55 @@ func (p *Prog) handoffFunc(s *Sem) *ssa.Function {
 		}
 	}
 	return nil
+}
+
+// checkSingleDispatcher (C04.R11): a channel's inbound streams have one consumer. On the client side the goroutine that
+// runs the dispatch loop is spawned by one function, which is called exactly once — by the function that allocates the
+// Client. A second listener on the same channel takes alternate envelopes and runs handlers concurrently: order is lost.
+func checkSingleDispatcher(r *Report, s *Sem, R string) {
+	p := r.P
+	a := s.anchors()
+	if a.listenFn == nil {
+		r.Undecided(R, "anchor-unresolved:dispatch loop", "-", "not found")
+		return
+	}
+	clientT := p.Type("Client")
+	n := 0
+	for _, fn := range p.LimeFuncs() {
+		if fn.Parent() != nil || clientT == nil || !typeIs(recvType(fn), clientT) {
+			continue
+		}
+		spawns := false
+		eachInstr(fn, func(in ssa.Instruction) {
+			g, ok := in.(*ssa.Go)
+			if !ok {
+				return
+			}
+			for _, callee := range p.calleesAt(g) {
+				if callee == a.listenFn || p.reachable(callee)[a.listenFn] {
+					spawns = true
+				}
+			}
+		})
+		if !spawns {
+			continue
+		}
+		n++
+		callers := p.callersOf(fn)
+		inCtor := 0
+		for _, c := range callers {
+			eachInstr(topLevel(c.Parent()), func(in ssa.Instruction) {
+				if al, ok := in.(*ssa.Alloc); ok && typeIs(al.Type(), clientT) {
+					inCtor++
+				}
+			})
+		}
+		r.Check(R, "func "+fnName(fn)+" / the client's dispatcher is started once, by the constructor", p.pos(fn.Pos()), len(callers) == 1 && inCtor > 0,
+			fmt.Sprintf("%d call site(s), %d of them in a function that allocates the Client", len(callers), inCtor))
+	}
+	if n == 0 {
+		r.Undecided(R, "client listener", "-", "no method of Client spawns a goroutine that reaches the dispatch loop")
+	}
 }
 
 func c04Dispatch(r *Report, s *Sem, R6 string) {
@@ -615,6 +667,44 @@ func c05(r *Report, s *Sem) {
 				}
 			}
 			r.Check(R3, "func "+fnName(reqFn)+" / error exits", p.pos(reqFn.Pos()), nErr >= 2, fmt.Sprintf("%d error-returning exits (duplicate id, send failure, context end expected)", nErr))
+			// the wait: nothing but the reply slot and the caller's context can end it
+			if isMake {
+				nSel := 0
+				eachInstr(reqFn, func(in ssa.Instruction) {
+					sel, ok := in.(*ssa.Select)
+					if !ok {
+						return
+					}
+					mine := false
+					for _, st := range sel.States {
+						if st.Dir == types.RecvOnly && stripConv(st.Chan) == ssa.Value(mc) {
+							mine = true
+						}
+					}
+					if !mine {
+						return
+					}
+					nSel++
+					extra := ""
+					for _, st := range sel.States {
+						if st.Dir == types.RecvOnly && stripConv(st.Chan) == ssa.Value(mc) {
+							continue
+						}
+						if cv, isDone := isCtxDoneChan(st.Chan); isDone && st.Dir == types.RecvOnly && ctxFromParam(cv, 0) {
+							continue
+						}
+						extra = describe(st.Chan)
+					}
+					if !sel.Blocking {
+						extra = "a default arm"
+					}
+					r.Check(R3, "func "+fnName(reqFn)+" / the wait ends only with the response or the caller's context", p.instrPos(in), extra == "",
+						"another way out of the wait ("+extra+") races with a response that was already taken out of the table: the caller gets neither the response nor its context's error, and the response is lost")
+				})
+				if nSel == 0 {
+					r.Check(R3, "func "+fnName(reqFn)+" / the wait ends only with the response or the caller's context", p.pos(reqFn.Pos()), false, "no select on the registered reply channel")
+				}
+			}
 		}
 	}
 
